@@ -31,6 +31,7 @@ class ElfSection:
 
 
 SHN_UNDEF = 0
+SHN_ABS = 0xFFF1
 
 
 class ElfFile:
